@@ -280,6 +280,24 @@ var("C03", "lock-tables-filled-in-one-loop", LOCKED, _LK_OLD, _LK_MERGED, "one l
 mut("C03", "single-reader-mode-two-mutexes-per-bucket", LOCKED, _LK_OLD, _LK_SPLIT, "R3.6", "seed C03E: a get no longer excludes a set of the same key")
 mut("C03", "reader-lock-of-a-second-rwmutex", LOCKED, "\t\t\trlocks[slot][idx] = temp.RLocker()\n", "\t\t\trlocks[slot][idx] = (&sync.RWMutex{}).RLocker()\n", "R3.6")
 
+# --- round 5/6 probes (rules R7.10, R4.15, R18.10, R6.11, R17.6, R8.14, R9.9, R5.5, R13.13)
+mut("C07", "text-set-terminator-not-consumed", TP, "\t// Consume the last two bytes \"\\r\\n\"\n\tr.ReadString(byte('\\n'))\n", "\t// terminator left for the next parse\n", "R7.10")
+mut("C08", "text-set-terminator-not-consumed", TP, "\t// Consume the last two bytes \"\\r\\n\"\n\tr.ReadString(byte('\\n'))\n", "\t// terminator left for the next parse\n", "R8.13")
+mut("C04", "touch-skips-chunk-0", CH, "\tfor i := 0; i < int(metaData.NumChunks); i++ {\n\t\tchunkKey := chunkKey(cmd.Key, i)\n\t\tif err := binprot.WriteTouchCmd", "\tfor i := 1; i < int(metaData.NumChunks); i++ {\n\t\tchunkKey := chunkKey(cmd.Key, i)\n\t\tif err := binprot.WriteTouchCmd", "R4.15")
+mut("C09", "touch-skips-chunk-0", CH, "\tfor i := 0; i < int(metaData.NumChunks); i++ {\n\t\tchunkKey := chunkKey(cmd.Key, i)\n\t\tif err := binprot.WriteTouchCmd", "\tfor i := 1; i < int(metaData.NumChunks); i++ {\n\t\tchunkKey := chunkKey(cmd.Key, i)\n\t\tif err := binprot.WriteTouchCmd", "R9.10")
+mut("C04", "set-writes-chunk-n-under-n-plus-1", CH, "\t\tkey := chunkKey(cmd.Key, chunkNum)", "\t\tkey := chunkKey(cmd.Key, chunkNum+1)", "R4.15")
+MC = "metrics/counters.go"
+MG = "metrics/gauges.go"
+mut("C18", "inccounterby-ignores-amount", MC, "atomic.AddUint64(&counters[id], amount)", "atomic.AddUint64(&counters[id], 1)", "R18.10")
+mut("C18", "counters-reported-under-the-next-name", MC, "\t\t\tVal:  atomic.LoadUint64(&counters[i]),", "\t\t\tVal:  atomic.LoadUint64(&counters[(i+1)%numIDs]),", "R18.10")
+mut("C18", "setintgauge-writes-the-float-table", MG, "atomic.StoreUint64(&intgauges[id], value)", "atomic.StoreUint64(&floatgauges[id], value)", "R18.10")
+mut("C06", "batched-touch-drops-the-outcome", BH, "func (h Handler) Touch(cmd common.TouchRequest) error {\n\t_, err := h.doRequest(cmd, common.RequestTouch)\n\treturn err", "func (h Handler) Touch(cmd common.TouchRequest) error {\n\t_, err := h.doRequest(cmd, common.RequestTouch)\n\t_ = err\n\treturn nil", "R6.11")
+mut("C17", "append-stores-new-before-old", INMEM, "\t\tdata:    append(e.data, cmd.Data...),", "\t\tdata:    append(cmd.Data, e.data...),", "R17.6")
+mut("C17", "gat-keeps-the-old-expiry", INMEM, "\te.exptime = expiry(cmd.Exptime)\n", "\t_ = expiry(cmd.Exptime)\n", "R17.6", nth=1)
+mut("C17", "expiry-without-the-30-day-boundary", INMEM, "\tif ttl > realTimeMaxDelta {\n\t\treturn ttl\n\t}\n", "", "R17.5", "defect F21 again")
+mut("C09", "inmem-expiry-without-the-30-day-boundary", INMEM, "\tif ttl > realTimeMaxDelta {\n\t\treturn ttl\n\t}\n", "", "R9.9", "defect F21 again")
+mut("C08", "gete-reply-expiry-before-flags", BR, "\tbinary.Write(b.writer, binary.BigEndian, response.Flags)\n\tbinary.Write(b.writer, binary.BigEndian, response.Exptime)\n", "\tbinary.Write(b.writer, binary.BigEndian, response.Exptime)\n\tbinary.Write(b.writer, binary.BigEndian, response.Flags)\n", "R8.14")
+
 for prop, ms in sorted(M.items()):
     json.dump(ms, open(os.path.join(ROOT, "rendlint", "mutants", prop + ".json"), "w"), indent=1)
     print(prop, len([m for m in ms if m["kind"] == "mutant"]), "mutants,", len([m for m in ms if m["kind"] == "variant"]), "variants")
